@@ -251,20 +251,52 @@ def naming(repo: Repo, rep, P: str):
     n_gen = len(gen)
     rep.count("generated_metamodule_controllers", n_gen, 5)
     p = [a.arg for a in init.args.args if a.arg != "self"][0]
-    name_ok = f"self.name = f'user_defined_{{{p} + 1}}'" in s
-    num_ok = f"self.number = {p} + {n_gen + 1}" in s
-    if name_ok and num_ok:
+    from .. import alg as _alg
+
+    def _leaf(e):
+        if isinstance(e, ast.Name) and e.id == p:
+            return _alg.Poly.sym("i")
+        try:
+            v_ = repo.fold(e, ci=ud, sf=ud.file)
+            if isinstance(v_, int) and not isinstance(v_, bool):
+                return _alg.Poly.const(v_)
+        except Exception:
+            pass
+        return None
+    name_v = num_v = "?"
+    for n_ in walk_no_nested(init):
+        if isinstance(n_, ast.Assign) and any(norm(t_) == "self.number" for t_ in n_.targets):
+            try:
+                num_v = _alg.to_poly(n_.value, _leaf) == _alg.Poly.sym("i") + (n_gen + 1)
+            except _alg.NotAlgebraic:
+                num_v = "?"
+        if isinstance(n_, ast.Assign) and any(norm(t_) == "self.name" for t_ in n_.targets):
+            v_ = n_.value
+            idx_e = None
+            if isinstance(v_, ast.JoinedStr) and len(v_.values) == 2 and isinstance(v_.values[0], ast.Constant) and v_.values[0].value == "user_defined_" \
+                    and isinstance(v_.values[1], ast.FormattedValue) and v_.values[1].format_spec is None:
+                idx_e = v_.values[1].value
+            elif isinstance(v_, ast.BinOp) and isinstance(v_.op, ast.Add) and isinstance(v_.left, ast.Constant) and v_.left.value == "user_defined_" \
+                    and isinstance(v_.right, ast.Call) and norm(v_.right.func) == "str" and len(v_.right.args) == 1:
+                idx_e = v_.right.args[0]
+            elif isinstance(v_, ast.BinOp) and isinstance(v_.op, ast.Mod) and isinstance(v_.left, ast.Constant) and v_.left.value in ("user_defined_%d", "user_defined_%s", "user_defined_%i"):
+                idx_e = v_.right.elts[0] if isinstance(v_.right, ast.Tuple) and len(v_.right.elts) == 1 else v_.right
+            elif isinstance(v_, ast.Call) and isinstance(v_.func, ast.Attribute) and v_.func.attr == "format" and isinstance(v_.func.value, ast.Constant) \
+                    and v_.func.value.value in ("user_defined_{}", "user_defined_{0}", "user_defined_{:d}") and len(v_.args) == 1:
+                idx_e = v_.args[0]
+            if idx_e is not None:
+                try:
+                    name_v = _alg.to_poly(idx_e, _leaf) == _alg.Poly.sym("i") + 1
+                except _alg.NotAlgebraic:
+                    name_v = "?"
+    if name_v is True and num_v is True:
         rep.ok(f"{P}.R1", f"{rel}:UserDefined.__init__", f"name = user_defined_{{{p}+1}}; number = {p} + {n_gen + 1}",
                f"numbers continue after the {n_gen} generated controllers")
+    elif name_v == "?" or num_v == "?":
+        rep.inconclusive(f"{P}.R1", f"{rel}:UserDefined.__init__", s[:200], "construction of the name / number not recognised", f"{rel}:{init.lineno}")
     else:
         rep.violation(f"{P}.R1", f"{rel}:UserDefined.__init__", s[:200],
                       f"user-defined controller i must be named user_defined_(i+1) and numbered i + {n_gen + 1}", f"{rel}:{init.lineno}")
-    if "super().__init__((0, 44100), 0, attached=False)" in s or "attached=False" in s:
-        rep.ok(f"{P}.R1", f"{rel}:UserDefined.__init__", "attached=False", "user controllers start detached", nontrivial=False)
-    else:
-        rep.violation(f"{P}.R1", f"{rel}:UserDefined.__init__", s[:160], "user-defined controllers must start detached", f"{rel}:{init.lineno}")
-    user_defined_fresh(repo, rep, P, "R1")
-    # proxy → per-instance object by index
     px = repo.cls("UserDefinedProxy", module=MM)
     ctl = norm(repo.own_method(px, "controller"))
     if "return instance.user_defined[self.index]" in ctl and "self.index = index" in norm(repo.own_method(px, "__init__")):
@@ -381,6 +413,8 @@ def labels_and_project(repo: Repo, rep, P: str):
         v = None
     if start is not None and v == start + MAXN:
         rep.ok(f"{P}.R2", f"{rel}:MetaModule.chnk", f"{v} = {start} + {MAXN}", "one more than the highest label chunk")
+    elif start is None or v is None:
+        rep.inconclusive(f"{P}.R2", f"{rel}:MetaModule.chnk", f"chnk = {v}, first label chunk {start}", "label chunk numbering not derived", rel)
     else:
         rep.violation(f"{P}.R2", f"{rel}:MetaModule.chnk", f"chnk = {v}", f"CHNK must be {start} + {MAXN} (labels go up to {start} + {MAXN - 1})", rel)
     # embedded project
